@@ -40,10 +40,13 @@ CLAIMED = {
     "C02": _e2("Real MemoryMap.add_resource/add_window/align_to/freeze and the range map beneath run on symbolic "
                "addresses and sizes; every path of every enumerated call-kind sequence (length 2 exhaustively, 3-4 "
                "sampled / exhaustive in the thorough tier) is explored and disjointness, bounds, size, reporting, "
-               "cursor rule, exact explicit placement and failure atomicity are proved on every path.",
+               "cursor rule, exact explicit placement and failure atomicity are proved on every path; every call is also "
+               "replayed on a reference map that never saw the refused calls and equal outcomes are proved (no half-applied "
+               "state can influence a later call).",
                "DESIGN.md section 4 C02"),
     "C03": _e2("Real all_resources/find_resource/decode_address/_translate on enumerated tree shapes with symbolic "
-               "placements and a symbolic decoded address, against a closed-form composition oracle.",
+               "placements and a symbolic decoded address, against a closed-form composition oracle; lookups (also abandoned "
+               "traversals, strangers) are interleaved with construction at every level.",
                "DESIGN.md section 4 C03"),
     "C04": _e1("Real Multiplexer.elaborate (with the real shadow-balancing code) per layout: read-strobe exactness and "
                "zero-when-idle for ALL input sequences (1-2 frames from an arbitrary state), atomic snapshot of an "
@@ -101,7 +104,9 @@ CLAIMED = {
     "C19": _e1("A zoo of components sampled from all netlist families (plus register bridges over Builder maps) is "
                "elaborated twice per instance under a guard (internal errors, RecursionError, second-elaboration "
                "failures, metadata drift are violations by observation) and a reset-rooted miter between the two "
-               "netlists of one instance decides 'same hardware' for every input sequence of 8 cycles.",
+               "netlists of one instance decides 'same hardware' for every input sequence of 8 cycles; post-elaboration API "
+               "behaviour is compared with a never-elaborated twin; termination of shadow balancing is executed "
+               "symbolically (E2, 16-bit vectors) over symbolic register start addresses.",
                "DESIGN.md section 4 C19"),
 }
 
